@@ -4,9 +4,11 @@ import (
 	"bytes"
 	"encoding/hex"
 	"fmt"
+	"strings"
 	"sync"
 
 	"github.com/tjfoc/gmsm/gmtls"
+	gx509 "github.com/tjfoc/gmsm/x509"
 
 	"verif/mon"
 	"verif/ref"
@@ -50,6 +52,8 @@ type c16Server struct {
 	disabled bool
 	gen      int // configuration generation: bumped by any change other than adding a new first key while keeping old ones
 	name     string
+	dnsName  string // the name the client asks for and this server's certificates are issued to
+	leafRaw  []byte // the certificate a client must see as PeerCertificates[0]
 }
 
 type c16Ticket struct {
@@ -74,15 +78,33 @@ func runC16(c *Ctx) {
 	runC16Tamper(c)
 }
 
-func c16MkServer(pki *tlsPKI, gm bool, r *mon.RNG, name string, klog *keyLog) *c16Server {
-	s := &c16Server{name: name}
+func c16MkServer(pki *tlsPKI, gm bool, r *mon.RNG, name string, klog *keyLog, stdPool *gx509.CertPool) *c16Server {
+	s := &c16Server{name: name, dnsName: "srv-" + strings.ToLower(name) + ".verif.example"}
 	s.cfg = &gmtls.Config{Time: func() timeT { return fixedNow }, Rand: mon.NewRNG(r.U64()), ClientCAs: pki.pool, KeyLogWriter: klog}
+	both := []gx509.ExtKeyUsage{gx509.ExtKeyUsageServerAuth, gx509.ExtKeyUsageClientAuth}
 	if gm {
+		// every server has its own name and its own certificate pair under the common root
+		sk, ek := newSM2Key(r), newSM2Key(r)
+		_, sder, e1 := issueSM2(certSpec{cn: "sign " + name, serial: 100 + int64(name[0]), dns: []string{s.dnsName}, keyUsage: gx509.KeyUsageDigitalSignature, eku: both}, &sk.PublicKey, pki.root, pki.rootKey, r)
+		_, eder, e2 := issueSM2(certSpec{cn: "enc " + name, serial: 200 + int64(name[0]), dns: []string{s.dnsName}, keyUsage: gx509.KeyUsageKeyEncipherment | gx509.KeyUsageDataEncipherment | gx509.KeyUsageKeyAgreement, eku: both}, &ek.PublicKey, pki.root, pki.rootKey, r)
+		if e1 != nil || e2 != nil {
+			return nil
+		}
 		s.cfg.GMSupport = gmtls.NewGMSupport()
-		s.cfg.Certificates = []gmtls.Certificate{pki.sig, pki.enc}
+		s.cfg.Certificates = []gmtls.Certificate{{Certificate: [][]byte{sder}, PrivateKey: sk}, {Certificate: [][]byte{eder}, PrivateKey: ek}}
+		s.leafRaw = sder
 		s.suites = []uint16{gmtls.GMTLS_ECC_SM4_CBC_SM3, gmtls.GMTLS_ECC_SM4_GCM_SM3}
 	} else {
-		s.cfg.Certificates = []gmtls.Certificate{pki.rsaCert}
+		rk, _ := cachedRSA()
+		_, der, err := issueStd(s.dnsName, 300+int64(name[0]), true, []string{s.dnsName}, &rk.PublicKey, nil, rk, r)
+		if err != nil {
+			return nil
+		}
+		if cc, e := gx509.ParseCertificate(der); e == nil {
+			stdPool.AddCert(cc)
+		}
+		s.cfg.Certificates = []gmtls.Certificate{{Certificate: [][]byte{der}, PrivateKey: rk}}
+		s.leafRaw = der
 		s.suites = []uint16{gmtls.TLS_ECDHE_RSA_WITH_AES_128_GCM_SHA256, gmtls.TLS_RSA_WITH_AES_128_CBC_SHA}
 		s.cfg.MinVersion = gmtls.VersionTLS12
 	}
@@ -94,6 +116,61 @@ func c16MkServer(pki *tlsPKI, gm bool, r *mon.RNG, name string, klog *keyLog) *c
 	return s
 }
 
+// c16Op is one step of a history.
+type c16Op struct {
+	kind string // connect | rotate-keep-old | rotate-replace-all | drop-old-keys | server-suites-narrowed | server-auth | server-tickets-toggle | client-suites-narrowed
+	srv  int
+	arg  int
+}
+
+// c16Plan produces the operation list of history hi: scenario templates (so that every quick run contains the sequences
+// the property names: rotation keeping / dropping old keys around resumptions, evictions from a small client cache, policy
+// changes between connections) with seeded filling, and free random walks.
+func c16Plan(r *mon.RNG, hi, nServers int) []c16Op {
+	x := r.Intn(nServers)
+	y := (x + 1) % nServers
+	z := (x + 2) % nServers
+	con := func(s int) c16Op { return c16Op{"connect", s, 0} }
+	switch hi % 8 {
+	case 0: // refresh under a new key, then retire the old key
+		return []c16Op{con(x), {"rotate-keep-old", x, 0}, con(x), {"drop-old-keys", x, 0}, con(x), con(x)}
+	case 1: // eviction and return
+		return []c16Op{con(x), con(y), con(x), con(z), con(y), con(x)}
+	case 2: // key replaced
+		return []c16Op{con(x), con(x), {"rotate-replace-all", x, 0}, con(x), con(x)}
+	case 3: // tickets switched off and on again
+		return []c16Op{con(x), {"server-tickets-toggle", x, 0}, con(x), {"server-tickets-toggle", x, 0}, con(x), con(x)}
+	case 4: // client-certificate policy changes between connections
+		return []c16Op{con(x), {"server-auth", x, r.Intn(4)}, con(x), {"server-auth", x, r.Intn(4)}, con(x)}
+	}
+	var ops []c16Op
+	n := 0
+	for step := 0; step < 10 && n < 6; step++ {
+		k := r.Intn(11)
+		s := r.Intn(nServers)
+		switch {
+		case step == 0 || k >= 7:
+			ops = append(ops, con(s))
+			n++
+		case k == 0:
+			ops = append(ops, c16Op{"rotate-keep-old", s, 0})
+		case k == 1:
+			ops = append(ops, c16Op{"rotate-replace-all", s, 0})
+		case k == 2:
+			ops = append(ops, c16Op{"server-suites-narrowed", s, 0})
+		case k == 3:
+			ops = append(ops, c16Op{"server-auth", s, r.Intn(4)})
+		case k == 4:
+			ops = append(ops, c16Op{"server-tickets-toggle", s, 0})
+		case k == 5:
+			ops = append(ops, c16Op{"client-suites-narrowed", 0, 0})
+		case k == 6:
+			ops = append(ops, c16Op{"drop-old-keys", s, 0})
+		}
+	}
+	return ops
+}
+
 func runC16History(c *Ctx, hi int) {
 	rep := c.Rep
 	r := c.Rng(fmt.Sprintf("hist%d", hi))
@@ -103,93 +180,107 @@ func runC16History(c *Ctx, hi int) {
 	}
 	gm := hi%3 != 2
 	klog := &keyLog{}
-	servers := []*c16Server{c16MkServer(pki, gm, r, "A", klog)}
-	if r.Intn(3) == 0 {
-		servers = append(servers, c16MkServer(pki, gm, r, "B", klog))
-		if r.Intn(2) == 0 { // B shares A's ticket keys (a server farm)
-			servers[1].keys = append([][32]byte{}, servers[0].keys...)
-			servers[1].cfg.SetSessionTicketKeys(servers[1].keys)
+	stdPool := gx509.NewCertPool()
+	nServers := 1 + r.Intn(3)
+	var servers []*c16Server
+	for i := 0; i < nServers; i++ {
+		sv := c16MkServer(pki, gm, r, string(rune('A'+i)), klog, stdPool)
+		if sv == nil {
+			rep.Violation("C16/harness/server-identity", "cannot issue certificates", nil)
+			return
+		}
+		servers = append(servers, sv)
+	}
+	farm := nServers > 1 && r.Intn(2) == 0
+	if farm { // a server farm: different certificates, shared ticket keys
+		for _, sv := range servers[1:] {
+			sv.keys = append([][32]byte{}, servers[0].keys...)
+			sv.cfg.SetSessionTicketKeys(sv.keys)
+		}
+	}
+	auths := []gmtls.ClientAuthType{gmtls.NoClientCert, gmtls.RequestClientCert, gmtls.RequireAnyClientCert, gmtls.RequireAndVerifyClientCert}
+	withClientCert := r.Intn(2) == 0
+	for _, sv := range servers {
+		if r.Intn(2) == 0 {
+			sv.auth = auths[r.Intn(4)]
+			if !withClientCert && sv.auth >= gmtls.RequireAnyClientCert {
+				sv.auth = gmtls.RequestClientCert
+			}
+			sv.cfg.ClientAuth = sv.auth
 		}
 	}
 	capacity := 1 + r.Intn(3)
 	cache := &logCache{inner: gmtls.NewLRUClientSessionCache(capacity)}
 	cliSuites := append([]uint16{}, servers[0].suites...)
-	withClientCert := r.Intn(3) == 0
 	tickets := map[string]*c16Ticket{}
 	var ops []string
 	nConn := 0
-	for step := 0; step < 10 && nConn < 6; step++ {
-		// pick an operation
-		op := r.Intn(10)
-		si := r.Intn(len(servers))
+	for _, op := range c16Plan(r, hi, nServers) {
+		si := op.srv
 		s := servers[si]
-		switch {
-		case op == 0 && step > 0:
-			var k [32]byte
-			r.Fill(k[:])
-			s.keys = append([][32]byte{k}, s.keys...)
+		newKey := func() (k [32]byte) { r.Fill(k[:]); return }
+		reconf := func(f func(nc *gmtls.Config)) {
+			// a fresh Config value sharing the ticket keys (a Config must not be mutated while in use)
+			s.gen++
+			nc := s.cfg.Clone()
+			f(nc)
+			nc.SetSessionTicketKeys(s.keys)
+			s.cfg = nc
+		}
+		switch op.kind {
+		case "rotate-keep-old":
+			s.keys = append([][32]byte{newKey()}, s.keys...)
 			s.cfg.SetSessionTicketKeys(s.keys)
 			ops = append(ops, "rotate-keep-old("+s.name+")")
 			continue
-		case op == 1 && step > 0:
-			var k [32]byte
-			r.Fill(k[:])
-			s.keys = [][32]byte{k}
+		case "rotate-replace-all":
+			s.keys = [][32]byte{newKey()}
 			s.cfg.SetSessionTicketKeys(s.keys)
 			ops = append(ops, "rotate-replace-all("+s.name+")")
 			continue
-		case op == 2 && step > 0:
-			// change the suite list: a fresh Config value sharing the ticket keys (Config must not be mutated while in use)
+		case "drop-old-keys":
+			if len(s.keys) > 1 {
+				s.keys = s.keys[:1]
+				s.cfg.SetSessionTicketKeys(s.keys)
+				ops = append(ops, "drop-old-keys("+s.name+")")
+			}
+			continue
+		case "server-suites-narrowed":
 			s.suites = []uint16{s.suites[len(s.suites)-1]}
-			s.gen++
-			nc := s.cfg.Clone()
-			nc.CipherSuites = s.suites
-			nc.SetSessionTicketKeys(s.keys)
-			s.cfg = nc
+			reconf(func(nc *gmtls.Config) { nc.CipherSuites = s.suites })
 			ops = append(ops, "server-suites-narrowed("+s.name+")")
 			continue
-		case op == 3 && step > 0:
-			s.auth = []gmtls.ClientAuthType{gmtls.NoClientCert, gmtls.RequestClientCert, gmtls.RequireAnyClientCert, gmtls.RequireAndVerifyClientCert}[r.Intn(4)]
-			s.gen++
-			nc := s.cfg.Clone()
-			nc.ClientAuth = s.auth
-			nc.SetSessionTicketKeys(s.keys)
-			s.cfg = nc
+		case "server-auth":
+			s.auth = auths[op.arg%4]
+			reconf(func(nc *gmtls.Config) { nc.ClientAuth = s.auth })
 			ops = append(ops, fmt.Sprintf("server-auth=%s(%s)", authName(s.auth), s.name))
 			continue
-		case op == 4 && step > 0:
+		case "server-tickets-toggle":
 			s.disabled = !s.disabled
-			s.gen++
-			nc := s.cfg.Clone()
-			nc.SessionTicketsDisabled = s.disabled
-			nc.SetSessionTicketKeys(s.keys)
-			s.cfg = nc
+			reconf(func(nc *gmtls.Config) { nc.SessionTicketsDisabled = s.disabled })
 			ops = append(ops, fmt.Sprintf("server-tickets-disabled=%v(%s)", s.disabled, s.name))
 			continue
-		case op == 5 && step > 0 && len(cliSuites) > 1:
-			cliSuites = cliSuites[:1]
-			ops = append(ops, "client-suites-narrowed")
+		case "client-suites-narrowed":
+			if len(cliSuites) > 1 {
+				cliSuites = cliSuites[:1]
+				ops = append(ops, "client-suites-narrowed")
+			}
 			continue
 		}
 		// ---- a connection to server si
 		nConn++
 		ops = append(ops, "connect("+s.name+")")
-		ccfg := &gmtls.Config{ServerName: tlsServerName, CipherSuites: cliSuites, Time: func() timeT { return fixedNow }, Rand: mon.NewRNG(r.U64()), ClientSessionCache: cache, KeyLogWriter: klog}
+		ccfg := &gmtls.Config{ServerName: s.dnsName, CipherSuites: cliSuites, Time: func() timeT { return fixedNow }, Rand: mon.NewRNG(r.U64()), ClientSessionCache: cache, KeyLogWriter: klog}
 		if gm {
 			ccfg.GMSupport, ccfg.RootCAs = gmtls.NewGMSupport(), pki.pool
 		} else {
-			ccfg.RootCAs, ccfg.MinVersion, ccfg.MaxVersion = pki.gmStdPool, gmtls.VersionTLS12, gmtls.VersionTLS12
+			ccfg.RootCAs, ccfg.MinVersion, ccfg.MaxVersion = stdPool, gmtls.VersionTLS12, gmtls.VersionTLS12
 		}
 		if withClientCert {
 			ccfg.Certificates = []gmtls.Certificate{pki.cliSig, pki.cliEnc}
 		}
-		// two servers are two different "addresses": the cache key is derived from ServerName, so give B another name
-		// only when the history wants separate cache entries
-		if si == 1 && hi%2 == 0 {
-			// same ServerName: B receives tickets issued by A (cross-configuration offers)
-		}
 		out := handshakePair(ccfg, s.cfg, nil)
-		w := map[string]interface{}{"history": append([]string{}, ops...), "mode": map[bool]string{true: "GMSSL", false: "TLS1.2"}[gm], "cache_capacity": capacity, "client_error": errStr(out.cli.err), "server_error": errStr(out.srv.err), "cache_log": append([]string{}, cache.log...)}
+		w := map[string]interface{}{"history": append([]string{}, ops...), "mode": map[bool]string{true: "GMSSL", false: "TLS1.2"}[gm], "cache_capacity": capacity, "servers": nServers, "shared_ticket_keys": farm, "client_certificate": withClientCert, "client_error": errStr(out.cli.err), "server_error": errStr(out.srv.err), "cache_log": append([]string{}, cache.log...)}
 		for side, e := range map[string]*endResult{"client": &out.cli, "server": &out.srv} {
 			if e.panicked != nil {
 				rep.Violation("C16/Handshake/panic/"+side+"/"+e.panicked.Func, e.panicked.Value, w)
@@ -217,6 +308,13 @@ func runC16History(c *Ctx, hi int) {
 			break
 		}
 		cst, sst := out.cli.state, out.srv.state
+		// peer identity: resumed or not, the certificate the client reports must be the one of the server it asked for
+		// (a session is cached under the name it was verified for, whatever the cache has evicted in between)
+		if len(cst.PeerCertificates) == 0 || !bytes.Equal(cst.PeerCertificates[0].Raw, s.leafRaw) {
+			rep.Violation(fmt.Sprintf("C16/identity/client-reports-a-certificate-of-another-server/resumed=%v", cst.DidResume), fmt.Sprintf("asked for %s", s.dnsName), w)
+		} else if err := cst.PeerCertificates[0].VerifyHostname(s.dnsName); err != nil {
+			rep.Violation("C16/identity/peer-certificate-not-valid-for-the-requested-name", err.Error(), w)
+		}
 		// what was offered / issued, from the wire
 		var offered, issued []byte
 		var dec *ref.Decoded
@@ -422,17 +520,21 @@ func runC16Tamper(c *Ctx) {
 				continue
 			}
 			klog := &keyLog{}
-			s := c16MkServer(pki, gm, r, "A", klog)
+			stdPool := gx509.NewCertPool()
+			s := c16MkServer(pki, gm, r, "A", klog, stdPool)
+			if s == nil {
+				continue
+			}
 			if variant == "with-client-cert" {
 				s.cfg.ClientAuth = gmtls.RequireAndVerifyClientCert
 			}
 			mode := map[bool]string{true: "GMSSL", false: "TLS1.2"}[gm]
 			mkClient := func(cache gmtls.ClientSessionCache, rr *mon.RNG) *gmtls.Config {
-				ccfg := &gmtls.Config{ServerName: tlsServerName, CipherSuites: s.suites[:1], Time: func() timeT { return fixedNow }, Rand: mon.NewRNG(rr.U64()), ClientSessionCache: cache, KeyLogWriter: klog}
+				ccfg := &gmtls.Config{ServerName: s.dnsName, CipherSuites: s.suites[:1], Time: func() timeT { return fixedNow }, Rand: mon.NewRNG(rr.U64()), ClientSessionCache: cache, KeyLogWriter: klog}
 				if gm {
 					ccfg.GMSupport, ccfg.RootCAs = gmtls.NewGMSupport(), pki.pool
 				} else {
-					ccfg.RootCAs, ccfg.MinVersion, ccfg.MaxVersion = pki.gmStdPool, gmtls.VersionTLS12, gmtls.VersionTLS12
+					ccfg.RootCAs, ccfg.MinVersion, ccfg.MaxVersion = stdPool, gmtls.VersionTLS12, gmtls.VersionTLS12
 				}
 				if variant == "with-client-cert" {
 					ccfg.Certificates = []gmtls.Certificate{pki.cliSig, pki.cliEnc}
